@@ -527,35 +527,77 @@ func (c *Ctx) checkInsertionSort(rule string) {
 	}
 	c.sawFunc(c.fnKey(fn))
 	ok := false
-	instrsOf(fn, func(in ssa.Instruction) {
-		bo, isB := in.(*ssa.BinOp)
-		if !isB || (bo.Op != token.LSS && bo.Op != token.GTR) {
-			return
+	keys := ssa.Value(fn.Params[0])
+	elem := func(v ssa.Value) ssa.Value { // index of keys[idx], or nil
+		ld, isLd := stripConv(v).(*ssa.UnOp)
+		if !isLd || ld.Op != token.MUL {
+			return nil
 		}
-		lx, okx := stripConv(bo.X).(*ssa.UnOp)
-		ly, oky := stripConv(bo.Y).(*ssa.UnOp)
-		if !okx || !oky {
-			return
+		ia, isIA := ld.X.(*ssa.IndexAddr)
+		if !isIA || ia.X != keys {
+			return nil
 		}
-		ix, okix := lx.X.(*ssa.IndexAddr)
-		iy, okiy := ly.X.(*ssa.IndexAddr)
-		if !okix || !okiy || ix.X != ssa.Value(fn.Params[0]) || iy.X != ssa.Value(fn.Params[0]) {
-			return
+		return ia.Index
+	}
+	// adjacent: j and j-1
+	adj := func(a, b ssa.Value) bool {
+		s, isS := b.(*ssa.BinOp)
+		if !isS || s.Op != token.SUB || s.X != a {
+			return false
 		}
-		// adjacent: j and j-1
-		adj := func(a, b ssa.Value) bool {
-			s, isS := b.(*ssa.BinOp)
-			if !isS || s.Op != token.SUB || s.X != a {
-				return false
+		k, isK := constInt(s.Y)
+		return isK && k == 1
+	}
+	isSwapStore := func(in ssa.Instruction) bool {
+		st, isSt := in.(*ssa.Store)
+		if !isSt {
+			return false
+		}
+		ia, isIA := st.Addr.(*ssa.IndexAddr)
+		return isIA && ia.X == keys
+	}
+	for _, b := range fn.Blocks {
+		iff, isIf := condOf(b)
+		if !isIf {
+			continue
+		}
+		for _, alt := range condAlternatives(iff.Cond, 2) {
+			op, x, y, isCmp := cmpOf(alt.v)
+			if !isCmp {
+				continue
 			}
-			k, isK := constInt(s.Y)
-			return isK && k == 1
+			ix, iy := elem(x), elem(y)
+			if ix == nil || iy == nil {
+				continue
+			}
+			// normalise to  keys[j] OP keys[j-1]
+			switch {
+			case adj(ix, iy):
+			case adj(iy, ix):
+				op = flipCmp(op)
+			default:
+				continue
+			}
+			// the outcome on which the elements are exchanged
+			swapIdx := -1
+			switch op {
+			case token.LSS:
+				swapIdx = 0
+			case token.GEQ:
+				swapIdx = 1
+			}
+			if swapIdx < 0 || (alt.onlyWhen != -1 && alt.onlyWhen != swapIdx) {
+				continue
+			}
+			inIf := func(i ssa.Instruction) bool { return i.Block() == b }
+			swaps := len(b.Succs[swapIdx].Instrs) > 0 && reachAvoiding(b.Succs[swapIdx].Instrs[0], true, isSwapStore, inIf) != nil
+			other := len(b.Succs[1-swapIdx].Instrs) > 0 && reachAvoiding(b.Succs[1-swapIdx].Instrs[0], true, isSwapStore, inIf) != nil
+			if swaps && !other {
+				ok = true
+			}
 		}
-		if (bo.Op == token.LSS && adj(ix.Index, iy.Index)) || (bo.Op == token.GTR && adj(iy.Index, ix.Index)) {
-			ok = true
-		}
-	})
-	c.check(ok, rule, c.fnKey(fn), fn.Pos(), "insertion sort: swaps while keys[j] < keys[j-1]", "insertionSort does not order adjacent elements by keys[j] < keys[j-1]: the keys are not sorted ascending, equal tag sets yield different keys")
+	}
+	c.check(ok, rule, c.fnKey(fn), fn.Pos(), "insertion sort: adjacent elements are exchanged exactly while keys[j] < keys[j-1]", "insertionSort does not order adjacent elements by keys[j] < keys[j-1]: the keys are not sorted ascending, equal tag sets yield different keys")
 }
 
 // checkRootInEveryShard: Subscope looks an identity up only in the shard its key hashes to, and the
